@@ -22,6 +22,9 @@ INNER = [' ', '  ', '\n', '\t', '\r\n', ' \n ']
 NON_HEADS = ['foo', '1', '(select 1)', 'begin', 'grant', 'set', 'show', 'explain', 'values', 'end', 'from', 'as',
              'analyze', 'rollback', 'use']
 DML = ['select', 'insert', 'update', 'delete', 'merge']
+# what may stand between the CTE definitions and the statement keyword
+GAPS = [' ', '\n', ' /* a */ ', ' /* a */ /* b */ ', ' -- a\n', ' /* a */ -- b\n ', ' /* a */\n/* b */\n', '/* a */', ' /*+ h */ ',
+        ' -- a\n -- b\n']
 
 
 def heads():
@@ -79,6 +82,13 @@ def cases(tier):
                                 tail = {'select': ' * from c', 'insert': ' into t select * from c',
                                         'update': ' t set a = 1', 'delete': ' from t', 'merge': ' into t using c on 1 = 1',
                                         'foo': ' bar', '(select 1)': '', '': ''}[body]
+                                for gap in GAPS if (n == 1 and cs == 'lower' and pre in ('', ' ')) else GAPS[:1]:
+                                    g2 = gap if body else ''
+                                    text = pre + w + ' ' + sep.join(combo) + g2 + recase(body, cs) + tail
+                                    exp = body.upper() if body in DML else 'UNKNOWN'
+                                    yield {'text': text, 'expect': exp,
+                                           'cube': f'head=with|ctes={n}|rec={"yes" if rec else "no"}|body={body or "none"}|gap={GAPS.index(gap)}'}
+                                continue
                                 text = pre + w + ' ' + sep.join(combo) + (' ' if body else '') + recase(body, cs) + tail
                                 exp = body.upper() if body in DML else 'UNKNOWN'
                                 yield {'text': text, 'expect': exp,
